@@ -11,6 +11,20 @@ from vf import solve
 ROOT = os.path.dirname(os.path.dirname(os.path.abspath(__file__)))
 
 
+def load_open_obligations():
+    """OPEN_OBLIGATIONS: obligations the back ends cannot decide on the unchanged tree within any budget tried (recorded with the
+    reason).  When such an obligation comes back `unknown` again, nothing is concluded: the function is reported UNPROVED and the
+    obligation is counted as not discharged.  A refutation (sat + replay) of it is still a violation."""
+    out = []
+    p = os.path.join(ROOT, "OPEN_OBLIGATIONS")
+    if os.path.exists(p):
+        for ln in open(p):
+            m = re.match(r"open:\s+property=(\S+)\s+function=(\S+)\s+obligation=(.*?)\s*(#.*)?$", ln.strip())
+            if m:
+                out.append((m.group(1), m.group(2), m.group(3)))
+    return out
+
+
 def load_known_findings():
     out = {"finding": [], "fixed": []}
     p = os.path.join(ROOT, "KNOWN_FINDINGS")
@@ -52,6 +66,7 @@ class Ctx:
         self.explanation = ""
         self.extra = {}
         self.known = load_known_findings()
+        self.open_obligations = [(f, o) for (p_, f, o) in load_open_obligations() if p_ == pid]
         self.known_hit = []
 
     # ------------------------------------------------------------------ registration
@@ -67,6 +82,9 @@ class Ctx:
                   search=search, key=key or name, status="pending")
         if probe:
             ob["budget"] = 4.0       # a probe only has to survive: "unknown" is as good as a model
+        elif any(function == f and o in name for f, o in self.open_obligations):
+            ob["open"] = True        # recorded as undecidable for the back ends: one short attempt, no retry
+            ob["budget"] = 6.0
         self.obligations.append(ob)
         self.pending.append(ob)
         if function in self.functions and not probe:
@@ -121,7 +139,7 @@ class Ctx:
             ob["seconds"] = 0.0
             ob["same_vc_as"] = src["name"]
         # retry unknowns once with a tripled budget (a busy machine must not flip a verdict)
-        again = [ob for ob in uniq.values() if ob["status"] == "unknown" and not ob["probe"]]
+        again = [ob for ob in uniq.values() if ob["status"] == "unknown" and not ob["probe"] and not ob.get("open")]
         if again:
             for ob in again:
                 ob["retried"] = True
@@ -167,6 +185,11 @@ class Ctx:
         if ob["probe"]:
             return          # judged per function in _check_probes
         if ob["status"] == "unsat":
+            return
+        if ob.get("open") and ob["status"] == "unknown":
+            self.mark_unproved(ob["function"], "open obligation (OPEN_OBLIGATIONS): %s - undecided by the back ends, nothing is concluded"
+                               % ob["name"][:140])
+            ob["status"] = "open"
             return
         detail = {"status": ob["status"], "backend": ob.get("backend"), "model": _jsonable(ob.get("model")),
                   "notes": ob.get("notes")}
